@@ -329,7 +329,7 @@ class BzrUploader:
             self.outf.write(f"Uploading {old_relpath}\n")
         self._up_put_bytes(old_relpath, self.tree.get_file_text(new_relpath), mode)
 
-    def _force_clear(self, relpath):
+    def _force_clear(self, relpath, files=False):
         """Forcefully clear any existing item at the given path.
 
         Removes whatever exists at the path (file, directory, or symlink)
@@ -353,6 +353,9 @@ class BzrUploader:
                     self.outf.write(
                         f"Clearing {self.to_transport.external_url()}/{relpath}\n"
                     )
+                self._up_delete(relpath)
+            elif files:
+                # a regular file is replaced by put_bytes but not by symlink
                 self._up_delete(relpath)
         except transport_errors.PathError:
             pass
@@ -393,7 +396,7 @@ class BzrUploader:
             relpath: Path where the symlink should be created.
             target: Target path that the symlink should point to.
         """
-        self._force_clear(relpath)
+        self._force_clear(relpath, files=True)
         # Target might not be there at this time; dummy file should be
         # overwritten at some point, possibly by another upload.
         target = osutils.normpath(osutils.pathjoin(osutils.dirname(relpath), target))
